@@ -299,6 +299,23 @@ fn history(ctx: &Ctx, rng: &mut Rng, is128: bool, host_rom: bool, len: usize, st
                 }
                 hist.push(format!("LDIR {:04x}->{:04x} x{}", src, dst, n));
             }
+            8 => {
+                // port reads never page: an IN from any port – aliases of the paging port included,
+                // taken while the ULA is fetching the picture so that the bus is not idle – must
+                // leave the map alone
+                let port = match rng.below(4) {
+                    0 => latch_port(rng),
+                    1 => (rng.u16() & 0x3FFC) | 0x0001, // A15=A14=0, A1=0: uncontended alias
+                    2 => (rng.u16() & 0x7FFC) | *rng.pick(&[0u16, 1]),
+                    _ => rng.u16(),
+                };
+                let fr = m.frame_len();
+                let (t0, line) = if is128 { (14362usize, 228usize) } else { (14336, 224) };
+                let t = if rng.chance(2, 3) { t0 + rng.below(192) as usize * line + rng.below(128) as usize } else { rng.below(fr as u64) as usize };
+                m.set_clock(t.saturating_sub(12) % fr);
+                let v = m.inp(port);
+                hist.push(format!("IN {:04x} at T~{} -> {:02x}", port, t, v));
+            }
             _ => {
                 let a = rng.u16();
                 hist.push(format!("LD A,({:04x})", a));
